@@ -66,6 +66,9 @@ pub enum RStep {
     /// cut session s: 0 towards the dialer, 1 towards the acceptor, 2 both; reset or EOF
     Cut { s: u8, which: u8, reset: bool },
     UnknownDocRequest { x: u8 },
+    /// something happens to node x's replica underneath its live actor: 0 sync switched off,
+    /// 1 switched on again, 2 one handle closed, 3 opened again (with sync)
+    LocalFault { x: u8, kind: u8 },
 }
 
 #[derive(Serialize, Deserialize, Clone, Debug)]
@@ -119,6 +122,12 @@ impl Scenario for CoordReal {
         let n = rng.urange(3, tier.pick(14, 22));
         let g = crate::world::GenCfg { docs: 1, authors: 2, max_key_len: 2, ts_values: 5, marker_pct: 10, contents: 3 };
         let mut steps = Vec::new();
+        // a third of the runs: the replica is closed or its sync switch is flipped underneath the
+        // live actor, so that accepted sessions fail at their first or a later local step
+        let local_faults = rng.chance(1, 3);
+        if local_faults && rng.chance(1, 2) {
+            steps.push(RStep::LocalFault { x: rng.below(2) as u8, kind: *rng.pick(&[0u8, 2]) });
+        }
         for _ in 0..n {
             let x = rng.below(2) as u8;
             let s = match rng.below(30) {
@@ -129,6 +138,7 @@ impl Scenario for CoordReal {
                 17 => RStep::Break { d: rng.below(4) as u8 },
                 18..=24 => RStep::Pump { s: rng.below(4) as u8, frames: rng.range(1, 6) as u8 },
                 25..=27 => RStep::Cut { s: rng.below(4) as u8, which: rng.below(3) as u8, reset: rng.chance(1, 2) },
+                28 if local_faults => RStep::LocalFault { x, kind: *rng.pick(&[0u8, 0, 1, 2, 2, 3]) },
                 _ => RStep::UnknownDocRequest { x },
             };
             steps.push(s);
@@ -174,7 +184,7 @@ impl Scenario for CoordReal {
     }
 
     fn rule(&self) -> String {
-        "As `coord`, with real sessions: each dial runs run_alice, each delivered request BobState::run with the accept callback asking the callee's live actor; the driver delivers, loses or breaks requests, pumps sessions frame by frame and cuts either direction (EOF or reset); both stores hold 0-4 entries so sessions transfer data. Same safety oracles after every step and progress oracle at quiescence. Non-trivial: a loss, break or cut fired, or a decline / resync / simultaneous dial was observed.".into()
+        "As `coord`, with real sessions: each dial runs run_alice, each delivered request BobState::run with the accept callback asking the callee's live actor; the driver delivers, loses or breaks requests, pumps sessions frame by frame and cuts either direction (EOF or reset); both stores hold 0-4 entries so sessions transfer data; in a third of the runs a replica is closed or has its sync switch flipped underneath the live actor, so that accepted sessions fail at a local step. Same safety oracles after every step and progress oracle at quiescence. Non-trivial: a loss, break or cut fired, or a decline / resync / simultaneous dial was observed.".into()
     }
 }
 
@@ -479,6 +489,27 @@ async fn run(plan: &CoordRealPlan, cx: &mut Cx) -> Res {
                     if *reset { p.reset() } else { p.cut_eof() }
                 }
                 cx.fault(if *reset { "session_reset" } else { "session_cut" });
+            }
+            RStep::LocalFault { x, kind } => {
+                let x = *x as usize % 2;
+                let h = &nodes[x].sync;
+                match kind % 4 {
+                    0 => {
+                        let _ = h.set_sync(ns, false).await;
+                        cx.fault("local_sync_disabled_under_live_actor");
+                    }
+                    1 => {
+                        let _ = h.set_sync(ns, true).await;
+                    }
+                    2 => {
+                        let _ = h.close(ns).await;
+                        cx.fault("local_replica_closed_under_live_actor");
+                    }
+                    _ => {
+                        let _ = h.open(ns, iroh_docs::actor::OpenOpts::default().sync()).await;
+                    }
+                }
+                cx.ev("local-fault", format!("n{x} kind={kind}"));
             }
             RStep::UnknownDocRequest { x } => {
                 let x = *x as usize % 2;
